@@ -26,6 +26,7 @@ import fracexec
 from fracexec import frac_str, frac_list
 from props import c14
 from props import c15_inputs
+import t3_util as T3
 
 MODULE = 'UwgVerif.Props.C15'
 THEOREMS = [
@@ -65,9 +66,17 @@ def mod(pkg, name):
 
 
 # =============================================================================== canyon node
-def gen_ucm(rng, kind=None):
+def gen_ucm(rng, kind=None, stock=None, nb=None):
+    """A canyon state.  Explored beside the numbers: the SHAPE of the stock (`stock`: fractions adding up to
+    exactly one / to anything within the 1e-2 tolerance of the `bld` setter on either side / equal decimals such
+    as 3 x 0.333 / entries with fraction 0; one to five archetypes, sometimes thirty) and the building geometry
+    (`nFloor` > 1 with floor_height = bldHeight / nFloor, or the one-floor clamp of BEMCalc with a floor height
+    at or above the average building height); every building / wall / roof / BEMDef stand-in carries all
+    documented attributes of its class."""
     kind = kind or rng.choice(['random', 'random', 'isothermal', 'nosource', 'hot', 'cold'])
-    nb = rng.choice([0, 1, 1, 2, 2, 3, 5])
+    if nb is None:
+        nb = rng.choice([0, 1, 1, 2, 2, 3, 5]) if rng.random() < 0.97 else 30
+    stock = stock or rng.choice(T3.STOCK_KINDS)
     T = rq(rng, 270, 315, 4)
     c = {'kind': kind}
     c['pres'] = rq(rng, 90000, 104000, 1)
@@ -96,18 +105,18 @@ def gen_ucm(rng, kind=None):
         c['sensAnthrop'] = rq(rng, 300, 30000, 1)
     if kind == 'cold':      # drive the 200 K check
         c['treeSensHeat'] = -rq(rng, 300, 30000, 1)
-    fr = [F(rng.randint(1, 10)) for _ in range(nb)]
-    tot = sum(fr) if fr else 1
+    fr = T3.stock_fracs(rng, stock, nb)
+    c['stock'] = stock
     blds = []
     for j in range(nb):
         b = {}
-        b['frac'] = fr[j] / tot
+        b['frac'] = fr[j]
         b['indoorTemp'] = temp()
         b['tWall'] = temp()
         b['glazingRatio'] = rng.choice([F(0), rq(rng, 0, 0.9, 20), rq(rng, 0, 0.9, 20)])
         b['uValue'] = rq(rng, 0.5, 6, 10)
         b['vent'] = F(rng.randint(0, 30), 10000)
-        b['nFloor'] = rq(rng, 1, 25, 4)
+        b['nFloor'] = rng.choice([rq(rng, 1, 25, 4), rq(rng, 1, 25, 4), rq(rng, 1, 3, 4), F(1)])
         b['infil'] = rq(rng, 0, 2, 20)
         b['sensWaste'] = F(0) if nos else rq(rng, 0, 400, 2)
         # sources vanish when solRec = 0 or shgc = 1; cover both ways of having none
@@ -118,6 +127,9 @@ def gen_ucm(rng, kind=None):
         b['flArea'] = rq(rng, 100, 100000, 1)
         b['elecTotal'] = rq(rng, 0, 80, 4)
         b['gasTotal'] = rq(rng, 0, 80, 4)
+        # everything else a Building / Element / BEMDef documents (no input of the model)
+        b['battrs'] = T3.full_building_attrs(rng, {'nFloor': b['nFloor']}, c['bldHeight'])
+        b['wextra'], b['rextra'], b['bextra'] = T3.element_extras(rng), T3.element_extras(rng), T3.bemdef_extras(rng)
         blds.append(b)
     c['blds'] = blds
     return c
@@ -141,6 +153,18 @@ def ucm_edge(rng):
     return out
 
 
+def ucm_shape(c):
+    """Shape of the stock and of the building geometry of a canyon case (for the branch counts)."""
+    tot = sum(b['frac'] for b in c['blds'])
+    s = 'no-buildings' if not c['blds'] else ('sum=1' if tot == 1 else ('sum<1' if tot < 1 else 'sum>1'))
+    if any(b['frac'] == 0 for b in c['blds']):
+        s += '+zero-frac'
+    if any(b['nFloor'] == 1 and b.get('battrs', {}).get('floor_height', 0) > c['bldHeight'] and b['vent'] > 0
+           and b['frac'] > 0 for b in c['blds']):
+        s += '+clamped-floor'
+    return s
+
+
 def ucm_line(c):
     s = 'ucm ' + ' '.join('%s=%s' % (k, frac_str(c[k])) for k in UCM_FIELDS)
     for k in BLD_FIELDS:
@@ -160,14 +184,18 @@ def impl_ucm(pkg, c):
     u.verToHor, u.Q_roof = c['verToHor'], c['qRoof0']
     BEM = []
     for b in c['blds']:
-        BEM.append(NS(
-            building=NS(indoor_temp=b['indoorTemp'], glazing_ratio=b['glazingRatio'],
-                        u_value=b['uValue'], vent=b['vent'], nFloor=b['nFloor'],
-                        infil=b['infil'], sensWaste=b['sensWaste'], shgc=b['shgc'],
-                        ElecTotal=b['elecTotal'], GasTotal=b['gasTotal']),
-            wall=NS(layerTemp=[b['tWall'], b['tWall'] + 2], solRec=b['solRec']),
-            roof=NS(layerTemp=[b['tRoof'], b['tRoof'] - 2], sens=b['roofSens']),
-            frac=b['frac'], fl_area=b['flArea']))
+        battrs = dict(b.get('battrs', {}))
+        battrs.update(indoor_temp=b['indoorTemp'], glazing_ratio=b['glazingRatio'],
+                      u_value=b['uValue'], vent=b['vent'], nFloor=b['nFloor'],
+                      infil=b['infil'], sensWaste=b['sensWaste'], shgc=b['shgc'],
+                      ElecTotal=b['elecTotal'], GasTotal=b['gasTotal'])
+        wattrs = dict(b.get('wextra', {}), layerTemp=[b['tWall'], b['tWall'] + 2], solRec=b['solRec'])
+        wattrs.setdefault('sens', F(0))
+        rattrs = dict(b.get('rextra', {}), layerTemp=[b['tRoof'], b['tRoof'] - 2], sens=b['roofSens'])
+        rattrs.setdefault('solRec', F(0))
+        mattrs = dict(b.get('wextra', {}), layerTemp=[b['indoorTemp'], b['indoorTemp']], solRec=F(0), sens=F(0))
+        BEM.append(NS(**dict(b.get('bextra', {}), building=NS(**battrs), wall=NS(**wattrs), roof=NS(**rattrs),
+                             mass=NS(**mattrs), frac=b['frac'], fl_area=b['flArea'])))
     forc = NS(pres=c['pres'], hum=c['forcHum'])
     parameter = NS(cp=c['cp'])
     try:
@@ -532,10 +560,13 @@ def indoor_oracle(c, r):
 
 
 # =============================================================================== live float runs
-def live_wrappers(sink, tol=1e-9):
+def live_wrappers(sink, tol=1e-9, twin_every=12):
     """Wrap UCMDef.UCModel and UBLDef.ublmodel of the plain uwg package from outside."""
+    import copy
+
     def install(uwg_pkg, label):
         import importlib
+        ncall = [0]
         um = importlib.import_module('uwg.UCMDef')     # (the package re-exports the classes
         ub = importlib.import_module('uwg.UBLDef')     #  under the module names)
         o_uc, o_ub = um.UCMDef.UCModel, ub.UBLDef.ublmodel
@@ -562,6 +593,32 @@ def live_wrappers(sink, tol=1e-9):
                 Q += e.frac * (self.roofArea * b.sensWaste * self.h_mix +
                                aw * e.wall.solRec * (1.0 - b.shgc))
             o_uc(self, BEM, T_ubl, forc, parameter)
+            ncall[0] += 1
+            if twin_every and ncall[0] % twin_every == 1 and min(ws) >= 0:
+                # the property itself on a state really reached: same object, same stock, sources removed and
+                # every exchanged temperature set to T (then to a 0.01 K band): the REAL UCModel must keep T
+                # (stay inside the band)
+                for band in (0.0, 0.01):
+                    u2, B2 = copy.deepcopy(self), copy.deepcopy(BEM)
+                    T = float(T_ubl)
+                    u2.sensAnthrop = u2.treeSensHeat = 0.0
+                    u2.road.layerTemp[0] = T + band
+                    for j, e in enumerate(B2):
+                        e.building.sensWaste = 0.0
+                        e.wall.solRec = 0.0
+                        e.building.indoor_temp = T + band * ((j + 1) % 3) / 2.0
+                        e.wall.layerTemp[0] = T + band * (j % 2)
+                    o_uc(u2, B2, T, forc, parameter)
+                    lo, hi = T, T + band
+                    tmsg = None
+                    if not (lo - tol * T <= u2.canTemp <= hi + tol * T):
+                        shape = '; '.join('frac %r nFloor %r floor_height %r vent %r' % (
+                            e.frac, e.building.nFloor, e.building.floor_height, e.building.vent) for e in B2)
+                        tmsg = ('canyon (twin of a live state, sources removed): every exchanged temperature in '
+                                '[%r, %r] K but the real UCModel returns canTemp %r (off by %.3e K); bldHeight %r; '
+                                'stock: %s' % (lo, hi, u2.canTemp, u2.canTemp - (lo if u2.canTemp < lo else hi),
+                                               self.bldHeight, shape))
+                    sink('canyon-twin', label, 'isothermal' if band == 0 else 'band-0.01K', tmsg)
             H2 = sum(ws)
             msg = None
             if min(ws) >= 0 and H2 > 0:
@@ -611,6 +668,47 @@ def live_wrappers(sink, tol=1e-9):
     return install
 
 
+def setup_stock(bld, **attrs):
+    def setup(m, uwg_pkg):
+        m.bld = bld
+        for k, v in attrs.items():
+            setattr(m, k, v)
+    return setup
+
+
+_SGP = ('SGP_Singapore.486980_IWEC.epw', 'initialize_singapore.uwg')
+_TOR = ('CAN_ON_Toronto.716240_CWEC.epw', 'initialize_toronto.uwg')
+LOWRISE = [
+    # average building height below the floor-to-floor height of (some of) the stock: DOE floor heights are 8.53 m
+    # (warehouse), 6.1 m (supermarket, stand-alone retail), 5.18 m (strip mall), 4.27 m (hospital), 4 m (schools)
+    ('lowrise-5m-warehouse-supermarket', 5.0, [('warehouse', 'pst80', 0.4), ('supermarket', 'new', 0.3),
+                                              ('smalloffice', 'pst80', 0.3)]),
+    ('lowrise-3m-stripmall-retail', 3.0, [('stripmall', 'new', 0.5), ('standaloneretail', 'pst80', 0.5)]),
+    ('lowrise-4m-school-hospital', 4.0, [('primaryschool', 'pre80', 0.6), ('hospital', 'new', 0.4)]),
+    ('lowrise-2.5m-everything-clamped', 2.5, [('midriseapartment', 'pre80', 0.5), ('smalloffice', 'new', 0.5)]),
+]
+RUN_CONFIG = {}
+
+
+def stock_runs(quick):
+    """Live runs whose stock / geometry is legal but unlike the shipped examples (label, epw, param, month, zone,
+    autosize, setup)."""
+    runs = []
+    stocks = T3.LIVE_STOCKS[:4] if quick else T3.LIVE_STOCKS + [
+        ('thirty-archetypes-sum-0.9999', T3.thirty_stock(0.9999)), ('thirty-archetypes-sum-1.005', T3.thirty_stock(1.005))]
+    for label, bld in stocks:
+        runs.append(('stock-' + label,) + _SGP + (1, None, 0, setup_stock(bld)))
+        RUN_CONFIG['stock-' + label] = {'bld': bld}
+    for label, h, bld in (LOWRISE[:2] if quick else LOWRISE):
+        runs.append((label,) + _SGP + (1, None, 0, setup_stock(bld, bldheight=h)))
+        RUN_CONFIG[label] = {'bld': bld, 'bldheight': h}
+    if not quick:
+        label, h, bld = LOWRISE[0]
+        runs.append((label + '-toronto-jul',) + _TOR + (7, '5A', 0, setup_stock(bld, bldheight=h)))
+        RUN_CONFIG[label + '-toronto-jul'] = {'bld': bld, 'bldheight': h}
+    return runs
+
+
 def case_json(c):
     def j(v):
         if isinstance(v, F):
@@ -628,8 +726,12 @@ def unjson(v, key=None):
         return [unjson(x) for x in v]
     if isinstance(v, dict):
         return {k: unjson(x, k) for k, x in v.items()}
-    if isinstance(v, str) and key not in ('kind', 'want', 'cond', 'mode', 'run'):
-        return F(v)
+    if isinstance(v, str) and key not in ('kind', 'want', 'cond', 'mode', 'run', 'stock', 'documented',
+                                          'condtype', 'bldtype', 'builtera'):
+        try:
+            return F(v)
+        except ValueError:
+            return v
     return v
 
 
@@ -684,14 +786,19 @@ def run(chk):
     pairs = []
     for c, r in zip(cases, res):
         line = ucm_line(c)
-        kinds[line] = '%s/nb=%d%s' % (c['kind'], len(c['blds']),
-                                      '/' + r.replace(' ', '-') if isinstance(r, str) else '')
+        kinds[line] = '%s/nb=%d/%s%s' % (c['kind'], len(c['blds']), ucm_shape(c),
+                                         '/' + r.replace(' ', '-') if isinstance(r, str) else '')
         pairs.append((line, ucm_fmt(r)))
     chk.correspond(
         'UCMDef.UCModel~ucModel', 'C15', pairs,
         rule='fractionised UCMDef.UCModel (object built without its constructor) vs Lean '
-             '`Uwg.Air.ucModel` at Q; 0-5 building archetypes; exact equality of %s or of the '
-             'error class' % ', '.join(UCM_OUT),
+             '`Uwg.Air.ucModel` at Q; 0-5 (sometimes 30) building archetypes; explored beside the numbers: every '
+             'shape of stock the `bld` setter accepts (fractions adding up to exactly one; to 1 -/+ 0.0001..0.0099; '
+             'n equal 3- or 4-digit decimals such as 3 x 0.333; entries with fraction 0; a single entry) and the '
+             'building geometry (nFloor > 1 with floor_height = bldHeight / nFloor; the one-floor clamp of BEMCalc '
+             'with floor_height 1..4 x the average building height); the building, wall, roof, mass and BEMDef '
+             'stand-ins carry every attribute their class documents (legal values), the model sees only its own '
+             'inputs; exact equality of %s or of the error class' % ', '.join(UCM_OUT),
         classify=lambda line, impl: kinds[line])
     bad = 0
     br = {}
@@ -699,6 +806,9 @@ def run(chk):
         if isinstance(r, str):
             continue
         br[c['kind']] = br.get(c['kind'], 0) + 1
+        if c['kind'] in ('isothermal', 'nosource'):
+            k2 = 'fixedpoint-or-range/' + ucm_shape(c)
+            br[k2] = br.get(k2, 0) + 1
         msg = ucm_oracle(c, r)
         if msg is None and c['kind'] in ('random', 'nosource') and min(
                 [c['roofArea'] + c['roadArea'], c['hMix']]) >= 0:
@@ -720,7 +830,15 @@ def run(chk):
     nok = sum(1 for r in res if not isinstance(r, str))
     chk.direct('C15-oracle(UCModel, exact)', nok, nok,
                'isothermal fixed point, source-free range, monotonicity in added heat (paired '
-               'runs) on the exact results of the real UCModel', mismatches=bad, branches=br)
+               'runs) on the exact results of the real UCModel; the isothermal / source-free states cover every '
+               'stock shape (sum of fractions = 1, below, above, zero entries) with and without a building under '
+               'the one-floor clamp (branches fixedpoint-or-range/...)', mismatches=bad, branches=br)
+    for need in ('sum=1', 'sum<1', 'sum>1'):
+        for low in ('', '+clamped-floor'):
+            k2 = 'fixedpoint-or-range/' + need + low
+            if br.get(k2, 0) < (8 if quick else 40):
+                raise core.Infra('canyon generator no longer builds isothermal / source-free states with %s often '
+                                 'enough (%d)' % (k2, br.get(k2, 0)))
 
     # ---------------------------------------------------------------- indoor node
     n = 150 if quick else 1500
@@ -847,7 +965,7 @@ def run(chk):
                      gains, r['indoor_temp'], min(ts)))
         else:
             sink('indoor', label, 'hvac-acts', None)
-    runs = c14.LIVE_RUNS + (c14.LIVE_RUNS_THOROUGH if not quick else [])
+    runs = c14.LIVE_RUNS + (c14.LIVE_RUNS_THOROUGH if not quick else []) + stock_runs(quick)
     inst_nodes, inst_inputs = live_wrappers(sink), c15_inputs.live_install(sink)
 
     def install_all(uwg_pkg, label):
@@ -859,7 +977,8 @@ def run(chk):
     else:
         for label, msg in live_bad:
             chk.violation('impl-violation', 'C15 oracle on a live simulation (%s)' % label,
-                          case={'run': label}, observed=msg,
+                          case={'run': label, 'config': RUN_CONFIG.get(label, 'shipped parameter file')},
+                          observed=msg,
                           expected='range / mean statements within 1e-9 relative')
         ntot = sum(live.values())
         chk.measurements['urban_wind_profile_growth'] = {
@@ -877,7 +996,12 @@ def run(chk):
                    'side opposite to the source; relative tolerance 1e-9; and every urbflux / '
                    'SurfFlux call: uExch >= 0, ustarMod >= ustar, aeroCond > 0 (road, walls, roofs, '
                    'rural), air density > 0, canWind >= 0, canyon areas > 0, z0u / l_disp in range; '
-                   'loop bound = number of cells of the UBL object' % sorted(done),
+                   'loop bound = number of cells of the UBL object; runs stock-* use stocks the `bld` setter accepts '
+                   'but no shipped example has (sum of fractions 0.995 / 1.005 / 0.999 = 3 x 0.333, a zero fraction, '
+                   'thorough: thirty archetypes), runs lowrise-* an average building height below the floor height '
+                   'of (part of) the stock; canyon-twin = at every 12th UCModel call the same UCMDef and BEM objects '
+                   'are deep-copied, sources removed and every exchanged temperature set to T (then into a 0.01 K '
+                   'band): the real UCModel must return T (stay in the band)' % sorted(done),
                    mismatches=len(live_bad), branches=live)
     chk.assumptions.append(
         'C15: the three node updates are exercised through fracexec (exact rationals); the '
